@@ -31,6 +31,8 @@ def optimize : Sx → Sx
   | .list w (.op o :: args) =>
     match o with
     | .QUOTE | .QUASIQUOTE => .list w (.op o :: args)
+    -- `groups` evaluates a list operand and takes a bare symbol as a name: its operands are left as written
+    | .GROUPS => .list w (.op o :: args)
     | .IF =>
       if !w then .list w (.op o :: args) else       -- `expr.line_info` raises on a plain list
       let args' := optList args
